@@ -597,6 +597,14 @@ var c16Known = []struct {
 // the Vm.v model process (nil when it could not be started)
 var c16VMModel *Model
 
+// regression cases: array results must not share storage with their operands
+// (a concatenation built with append(left.Elements, …) aliases the left
+// operand's spare capacity; `a + []` must be a copy)
+var c16Corpus = []string{
+	"a := [1 2 3]\nb := a + [4]\nc := b + [5]\nd := b + [6]\nc = c\nd = d\ne := a + []\ne[0] = 9\na = a\nb = b\n",
+	"a := [1 2 3 4 5]\nb := a[0:2]\nc := b + [7]\nd := b + [8]\nc[0] = 1\nr := a * 2\nr2 := r + [9]\nr3 := r + [10]\nr2[1] = 5\na = a\nb = b\nc = c\nd = d\nr = r\nr2 = r2\nr3 = r3\n",
+}
+
 func runC16(cfg Config, r *Result) {
 	if m, err := StartModelBig("vmrun"); err == nil {
 		c16VMModel = m
@@ -635,6 +643,9 @@ func runC16(cfg Config, r *Result) {
 	}
 	defer model.Close()
 	for _, src := range c17Corpus {
+		c16Case(src, nil, "corpus", r, model)
+	}
+	for _, src := range c16Corpus {
 		c16Case(src, nil, "corpus", r, model)
 	}
 	// refuted-lemma witnesses and one replay per known class
